@@ -539,6 +539,8 @@ pub struct NetState {
 
 #[derive(Clone, Debug)]
 pub struct UdpLogEntry {
+    /// datagram id: the copies of a duplicated datagram and its send entry share it
+    pub id: u64,
     pub seq: u64,
     pub kind: &'static str, // "send" | "deliver" | "drop" | "dup"
     pub from: StdSocketAddr,
@@ -1125,7 +1127,7 @@ impl TcpSocket {
 // UDP
 
 struct UdpState {
-    inbox: VecDeque<(Instant, u64, Vec<u8>, StdSocketAddr)>,
+    inbox: VecDeque<(Instant, u64, Vec<u8>, StdSocketAddr, u64)>,
     waker: Option<Waker>,
     owner: NodeId,
     closed: bool,
@@ -1172,8 +1174,16 @@ impl UdpSocket {
             std::future::pending::<()>().await;
         }
         let to = target.to_sim_addr()?;
-        udp_send(self.node, self.addr, to, buf);
+        let id = udp_send(self.node, self.addr, to, buf);
+        LAST_SENT.with(|l| l.set(id));
         Ok(buf.len())
+    }
+
+    /// harness: like `recv_from`, also returns the id of the delivered datagram
+    pub async fn recv_with_id(&self, buf: &mut [u8]) -> io::Result<(usize, StdSocketAddr, u64)> {
+        let (n, from) = self.recv_from(buf).await?;
+        let id = LAST_DELIVERED.with(|l| l.get());
+        Ok((n, from, id))
     }
 
     pub async fn recv(&self, buf: &mut [u8]) -> io::Result<usize> {
@@ -1199,10 +1209,33 @@ impl Drop for UdpSocket {
     }
 }
 
+thread_local! {
+    pub static LAST_DELIVERED: std::cell::Cell<u64> = const { std::cell::Cell::new(0) };
+}
+
+thread_local! {
+    /// id of the datagram most recently sent through `UdpSocket::send_to` on this thread
+    pub static LAST_SENT: std::cell::Cell<u64> = const { std::cell::Cell::new(0) };
+}
+
 /// Inject/send a datagram (also used by scripted peers of the harness).
-pub fn udp_send(from_node: NodeId, from: StdSocketAddr, to: StdSocketAddr, data: &[u8]) {
+pub fn udp_send(from_node: NodeId, from: StdSocketAddr, to: StdSocketAddr, data: &[u8]) -> u64 {
     let now = Instant::now();
-    let target = ctx::with(|s| s.net.udp.get(&to).cloned());
+    let target = ctx::with(|s| {
+        if let Some(t) = s.net.udp.get(&to) {
+            return Some(t.clone());
+        }
+        // sockets bound to the unspecified address receive everything sent to their port
+        s.net
+            .udp
+            .iter()
+            .find(|(a, _)| a.port() == to.port() && a.ip().is_unspecified())
+            .map(|(_, t)| t.clone())
+    });
+    let id = ctx::with(|s| {
+        s.net.next_conn += 1;
+        s.net.next_conn
+    });
     let at_us = ctx::now_us();
     let mut copies: Vec<u64> = vec![];
     ctx::with(|s| {
@@ -1210,6 +1243,7 @@ pub fn udp_send(from_node: NodeId, from: StdSocketAddr, to: StdSocketAddr, data:
         let seq = s.next_seq();
         if let Some(l) = s.net.udp_log.as_mut() {
             l.push(UdpLogEntry {
+                id,
                 seq,
                 kind: "send",
                 from,
@@ -1223,6 +1257,7 @@ pub fn udp_send(from_node: NodeId, from: StdSocketAddr, to: StdSocketAddr, data:
             s.count("udp_dropped");
             if let Some(l) = s.net.udp_log.as_mut() {
                 l.push(UdpLogEntry {
+                    id,
                     seq,
                     kind: "drop",
                     from,
@@ -1251,7 +1286,7 @@ pub fn udp_send(from_node: NodeId, from: StdSocketAddr, to: StdSocketAddr, data:
     });
     let Some(target) = target else {
         ctx::with(|s| s.count("udp_no_receiver"));
-        return;
+        return id;
     };
     let (owner, closed) = target
         .lock()
@@ -1259,11 +1294,11 @@ pub fn udp_send(from_node: NodeId, from: StdSocketAddr, to: StdSocketAddr, data:
         .unwrap_or((0, true));
     if closed || !ctx::with(|s| s.node_alive(owner)) {
         ctx::with(|s| s.count("udp_no_receiver"));
-        return;
+        return id;
     }
     if partitioned(from_node, owner) {
         ctx::with(|s| s.count("udp_partition_drop"));
-        return;
+        return id;
     }
     for lat in copies {
         let at = now + Duration::from_micros(lat);
@@ -1273,13 +1308,14 @@ pub fn udp_send(from_node: NodeId, from: StdSocketAddr, to: StdSocketAddr, data:
         let pos = g
             .inbox
             .iter()
-            .position(|(t, q, _, _)| (*t, *q) > (at, seq))
+            .position(|(t, q, _, _, _)| (*t, *q) > (at, seq))
             .unwrap_or(g.inbox.len());
-        g.inbox.insert(pos, (at, seq, data.to_vec(), from));
+        g.inbox.insert(pos, (at, seq, data.to_vec(), from, id));
         if let Some(w) = g.waker.take() {
             w.wake();
         }
     }
+    id
 }
 
 struct UdpRecv<'a, 'b> {
@@ -1297,12 +1333,13 @@ impl Future for UdpRecv<'_, '_> {
         }
         let now = Instant::now();
         let mut g = this.s.st.lock().expect("udp");
-        if let Some((at, _, _, _)) = g.inbox.front() {
+        if let Some((at, _, _, _, _)) = g.inbox.front() {
             if *at <= now {
-                let (_, _, data, from) = g.inbox.pop_front().expect("front");
+                let (_, _, data, from, id) = g.inbox.pop_front().expect("front");
                 drop(g);
                 let n = data.len().min(this.buf.len());
                 this.buf[..n].copy_from_slice(&data[..n]);
+                LAST_DELIVERED.with(|l| l.set(id));
                 let at_us = ctx::now_us();
                 let to = this.s.addr;
                 ctx::with(|s| {
@@ -1311,6 +1348,7 @@ impl Future for UdpRecv<'_, '_> {
                     s.mix(0x0D9 ^ seq << 12 ^ (n as u64));
                     if let Some(l) = s.net.udp_log.as_mut() {
                         l.push(UdpLogEntry {
+                            id,
                             seq,
                             kind: "deliver",
                             from,
